@@ -92,6 +92,11 @@ def drvStep (s : Sys) (line : String) : Sys × String :=
         | none => (s, "bad-op")
       | _, _ => (s, "bad-op")
     | ["reset"] => (Sys.empty, "ok")
+    | "tr" :: fn :: args =>
+      -- the translated source (Gen/C08.lean `Tr`) evaluated on the given arguments
+      match args.mapM int? with
+      | some a => (match Fatchoy.Gen.C08.Tr.eval fn a with | some o => (s, o) | none => (s, "bad-op"))
+      | none => (s, "bad-op")
     | _ => (s, "bad-op")
 
 def drvMain : IO Unit := run Sys.empty drvStep
